@@ -640,6 +640,26 @@ func (h *rcH) step(a rcAct) (res string) {
 			time.Sleep(10 * time.Millisecond)
 		}
 		h.collect(-1, 0)
+	case "Burst":
+		// a headers notification, the next tx, the next tx update and an in-sync message in ONE write
+		next := h.c.NextMessageID()
+		hd := rcHeader(a.K)
+		var buf bytes.Buffer
+		for _, p := range []MessagePayload{
+			&Headers{RequestHeight: -7, StartHeight: uint32(a.K), Headers: []*wire.BlockHeader{&hd}},
+			&Tx{ID: next, Tx: rcTx(int(next % 30)), Outputs: []*wire.TxOut{wire.NewTxOut(1, []byte{0x51})}},
+			&TxUpdate{ID: next + 1, TxID: rcHash(int(next % 30))},
+			&InSync{},
+		} {
+			m := &Message{Payload: p}
+			if err := m.Serialize(&buf); err != nil {
+				return "serialize: " + err.Error()
+			}
+		}
+		if _, err := h.conn.Write(buf.Bytes()); err != nil {
+			return "send: " + err.Error()
+		}
+		h.barrier()
 	case "Subscribe":
 		var err error
 		h1, h2 := rcHash(1), rcHash(2)
